@@ -2,7 +2,7 @@
 import kdf
 
 W = 1 << 64
-THEOREMS = []
+THEOREMS = ["Kdf.Props.C02." + t for t in ("walk_eq_spec_pgt", "walk_eq_spec_linear", "walk_eq_spec_lookup", "walk_eq_spec_memarr", "noncanonical_invalid", "launch_steps_eq_walk")]
 FORMS = {
     "x86_64": [[12, 9, 9, 9, 9], [12, 9, 9, 9, 9, 9]],
     "ia32": [[12, 10, 10]],
